@@ -27,6 +27,7 @@ LEMMAS = ["remove", "set_scope", "take_flag", "take_arg", "take_arg_adjacent", "
 WRAPS = ["optional", "optional_catch", "many", "some", "count", "last", "fallback", "fallback_with"]
 LOOPS = ("many", "some", "count", "last")
 LAST_WINS = ("g2", "v2")  # grammars with a last-wins argument
+QUICK_SKIP = ("g1", "g2", "p1", "p2", "p3", "c2", "a2", "k2", "k4")  # conventional grammars are C01's daily business; thorough runs all
 DECL = Decl("a", "b")
 
 
@@ -482,6 +483,8 @@ def make_jobs(tier, seed, build):
     nc = 3 if tier == "quick" else 4
     for gname in CORPUS_GRAMMARS:
         g = CORPUS[gname]
+        if tier == "quick" and gname in QUICK_SKIP:
+            continue
         for sh in tok.all_shapes_by_words(nc, g.decl):
             jobs.append({"id": "corpus:%s:%s" % (gname, ",".join(sh)), "kind": "corpus", "grammar": gname, "shape": sh, "fs": "none"})
     return jobs
